@@ -525,7 +525,13 @@ fn scan(issued: &[(usize, String)]) -> SaltScan {
             match model::decode_disclosure(d).and_then(|v| v.get(0).and_then(Value::as_str).map(str::to_string)) {
                 Some(salt) => {
                     match model::b64d(&salt) {
-                        Some(b) if b.len() >= 16 => {}
+                        Some(b) if b.len() >= 16 => {
+                            // six equal bytes in a row among 16 random ones: probability ~ 4e-14 per
+                            // salt; a short read that leaves part of the buffer unfilled shows here
+                            if b.windows(6).any(|w| w.iter().all(|x| *x == w[0])) {
+                                sc.problems.push(("c14:salt_low_entropy".into(), json!({"thread": t, "salt": salt, "note": "run of >= 6 equal bytes"})));
+                            }
+                        }
                         Some(b) => sc.problems.push(("c14:salt_too_short".into(), json!({"thread": t, "salt": salt, "bytes": b.len()}))),
                         None => sc.problems.push(("c14:salt_not_base64url".into(), json!({"thread": t, "salt": salt}))),
                     }
